@@ -23,7 +23,9 @@ ASSUMPTIONS = ["vlib/ps38.py is a faithful transcription of PS3.8 Tables 9-11..9
                "values refused by the public setters are outside the quantifier and are skipped (counted)"]
 WORKERS = {"quick": 16, "thorough": 16}
 REQUIRE = {"checked_RQ": 50, "checked_AC": 50, "checked_PDATA": 50, "checked_RJ": 10, "checked_ABORT": 10,
-           "subitem_uid_rq": 20, "subitem_commonext": 20, "subitem_role": 20, "zero_len_primary": 1}
+           "subitem_uid_rq": 20, "subitem_commonext": 20, "subitem_role": 20, "zero_len_primary": 1,
+           "field_longer_than_255_uid_rq_prim": 5, "field_longer_than_255_uid_rq_sec": 5, "field_longer_than_255_uid_ac_resp": 5,
+           "field_longer_than_255_sopext_info": 5}
 
 
 def gen_cases(tier, seed):
@@ -105,6 +107,9 @@ def check_value(v, counters):
         counters["subitem_" + si["k"]] = counters.get("subitem_" + si["k"], 0) + 1
         if si["k"] == "uid_rq" and si["prim"] == "":
             counters["zero_len_primary"] = counters.get("zero_len_primary", 0) + 1
+        for f in ("prim", "sec", "resp", "info"):
+            if isinstance(si.get(f), str) and len(si[f]) // 2 > 255:
+                counters["field_longer_than_255_" + si["k"] + "_" + f] = counters.get("field_longer_than_255_" + si["k"] + "_" + f, 0) + 1
     return viol
 
 
